@@ -1045,8 +1045,12 @@ def knownTail (mode : Mode) (c : Nat) (sig : Sig) (args : List Bytes) (conn : Co
       emit c (.err (strBytes ("EXECABORT Transaction discarded because of: " ++ (sig.wrongArgs.drop 4))))
     else emit c (.err (strBytes sig.wrongArgs))
   else if conn.tx.isSome && !SigTable.notQueued.contains sig.name then
-    modifyConn c fun x => { x with tx := x.tx.map (· ++ [(sig.name, args)]) }
-    emit c .queued
+    if SigTable.notInMulti.contains sig.name then
+      modifyConn c fun x => { x with txFailed := true }
+      emit c (.err (strBytes Msgs.COMMAND_IN_MULTI_MSG))
+    else
+      modifyConn c fun x => { x with tx := x.tx.map (· ++ [(sig.name, args)]) }
+      emit c .queued
   else
     match ← runCommand mode c sig args false with
     | some r => emit c r
@@ -1102,6 +1106,18 @@ theorem pc_run (mode : Mode) (c : Nat) (nameB : Bytes) (args : List Bytes) (s : 
     · rw [if_pos hc, if_pos hc]; rfl
     · rw [if_neg hc, if_neg hc]; rfl
 
+
+/-- (P)SUBSCRIBE / (P)UNSUBSCRIBE inside MULTI: refused; only `txFailed` and the error reply -/
+theorem pc_refused (mode : Mode) (c : Nat) (nameB : Bytes) (args : List Bytes) (s : Sys) {sig : Sig}
+    (h : lookupSig nameB = some sig) (ha : sig.checkArity args.length = true)
+    (hq : ((s.conn c).tx.isSome && !SigTable.notQueued.contains sig.name) = true)
+    (hnm : SigTable.notInMulti.contains sig.name = true) :
+    (processCommand mode c (nameB :: args) s).2 =
+      (s.prologue.updConn c markTxFailed).emitS c (.err (strBytes Msgs.COMMAND_IN_MULTI_MSG)) := by
+  rw [processCommand_known mode c nameB args s h]
+  unfold knownTail
+  simp only [ha, hq, hnm, Bool.not_true, ↓reduceIte, Bool.false_eq_true, bind, StateT.bind, modifyConn_run, emit_run]
+  rfl
 
 theorem cleanupClosed_dbs (s : Sys) : (cleanupClosed s).2.srv.dbs = s.srv.dbs := by
   have h : Pres (fun t : Sys => t.srv.dbs = s.srv.dbs) cleanupClosed := by
@@ -1184,7 +1200,8 @@ theorem ErrStep.upd_emit {c : Nat} {r : Reply} {f : Conn → Conn} {s1 s2 : Sys}
 /-! ### the main theorem -/
 
 /-- request `fields` of connection `c`, processed in state `s`, is answered with an error:
-the command is unknown, or its arity is wrong, or — when it is run at once — `_run_command` refuses a regular command
+the command is unknown, or its arity is wrong, or it is (P)SUBSCRIBE / (P)UNSUBSCRIBE inside MULTI, or — when it is
+run at once — `_run_command` refuses a regular command
 in subscriber mode or its generic runner ends on an error path (`failed`), respectively `_run_command` of a special
 command returns an error reply (the subscriber-mode refusal included) -/
 def ErrAnswered (mode : Mode) (c : Nat) (fields : List Bytes) (s : Sys) : Prop :=
@@ -1195,7 +1212,9 @@ def ErrAnswered (mode : Mode) (c : Nat) (fields : List Bytes) (s : Sys) : Prop :
     | none => True
     | some sig =>
       if !sig.checkArity args.length then True
-      else if (s.conn c).tx.isSome && !SigTable.notQueued.contains sig.name then False
+      else if (s.conn c).tx.isSome && !SigTable.notQueued.contains sig.name then
+        -- inside MULTI: queued (`QUEUED`), except (P)SUBSCRIBE / (P)UNSUBSCRIBE, which are refused
+        SigTable.notInMulti.contains sig.name = true
       else match Cmd.regular sig.name with
         | some body => s.prologue.refuses c sig = true ∨ (s.prologue.regularOut c sig body args false).failed = true
         | none => badO (runCommand mode c sig args false s.prologue).1
@@ -1286,6 +1305,11 @@ theorem processCommand_error (mode : Mode) (c : Nat) (nameB : Bytes) (args : Lis
     · simp only [ha, Bool.not_true, Bool.false_eq_true, if_false] at herr
       by_cases hq : ((s.conn c).tx.isSome && !SigTable.notQueued.contains sig.name) = true
       · simp only [hq, if_true] at herr
+        rw [pc_refused mode c nameB args s hl ha hq herr]
+        have htx : (s.conn c).tx.isSome = true := by
+          simp only [Bool.and_eq_true] at hq; exact hq.1
+        exact ⟨_, markTxFailed, ErrStep.emit_upd (Quiet.refl hnd1) markTxFailed_closed (fun _ => rfl),
+          .inr (.inl ⟨rfl, htx⟩)⟩
       · have hq' : ((s.conn c).tx.isSome && !SigTable.notQueued.contains sig.name) = false := by
           simpa using hq
         simp only [hq', Bool.false_eq_true, if_false] at herr
@@ -1548,7 +1572,10 @@ theorem processCommand_exec_error (mode : Mode) (c : Nat) (nameB : Bytes) (args 
   by_cases ha : sig.checkArity args.length = true
   · simp only [ha, Bool.not_true, Bool.false_eq_true, if_false] at herr
     by_cases hq : ((s.conn c).tx.isSome && !SigTable.notQueued.contains sig.name) = true
-    · simp only [hq, if_true] at herr
+    · exfalso
+      rw [hname] at hq
+      simp only [Bool.and_eq_true] at hq
+      exact absurd hq.2 (by decide)
     · have hq' : ((s.conn c).tx.isSome && !SigTable.notQueued.contains sig.name) = false := by simpa using hq
       have hreg : Cmd.regular sig.name = none := by rw [hname]; rfl
       simp only [hq', Bool.false_eq_true, if_false, hreg] at herr
@@ -2533,12 +2560,13 @@ theorem prologue_out (s : Sys) : s.prologue.out = s.out := by
 
 theorem pc_queued (mode : Mode) (c : Nat) (nameB : Bytes) (args : List Bytes) (s : Sys) {sig : Sig}
     (h : lookupSig nameB = some sig) (ha : sig.checkArity args.length = true)
-    (hq : ((s.conn c).tx.isSome && !SigTable.notQueued.contains sig.name) = true) :
+    (hq : ((s.conn c).tx.isSome && !SigTable.notQueued.contains sig.name) = true)
+    (hnm : SigTable.notInMulti.contains sig.name = false) :
     (processCommand mode c (nameB :: args) s).2 =
       (s.prologue.updConn c fun x => { x with tx := x.tx.map (· ++ [(sig.name, args)]) }).emitS c .queued := by
   rw [processCommand_known mode c nameB args s h]
   unfold knownTail
-  simp only [ha, hq, Bool.not_true, ↓reduceIte, Bool.false_eq_true, bind, StateT.bind, modifyConn_run, emit_run]
+  simp only [ha, hq, hnm, Bool.not_true, ↓reduceIte, Bool.false_eq_true, bind, StateT.bind, modifyConn_run, emit_run]
 
 /-- a command body never returns an error-shaped reply: it raises instead -/
 def NoErrReply (body : Body) : Prop :=
@@ -2638,8 +2666,12 @@ theorem errAnswered_of_out (mode : Mode) (c : Nat) (nameB : Bytes) (args : List 
     by_cases ha : sig.checkArity args.length = true
     · simp only [ha, Bool.not_true, Bool.false_eq_true, if_false]
       by_cases hq : ((s.conn c).tx.isSome && !SigTable.notQueued.contains sig.name) = true
-      · exfalso
-        rw [pc_queued mode c nameB args s hl ha hq, Sys.emitS_out] at hout
+      · simp only [hq, if_true]
+        cases hnm : SigTable.notInMulti.contains sig.name with
+        | true => rfl
+        | false =>
+        exfalso
+        rw [pc_queued mode c nameB args s hl ha hq hnm, Sys.emitS_out] at hout
         have ho : (s.prologue.updConn c fun x => { x with tx := x.tx.map (· ++ [(sig.name, args)]) }).out = s.out :=
           prologue_out s
         rw [ho] at hout
